@@ -20,7 +20,7 @@ Alphabet ==
 Progs == UNION { [1..n -> Alphabet] : n \in 1..MaxLen }
 
 VARIABLES prog, done
-Init == prog \in Progs /\ done = FALSE
+Init == (\E n \in 1..MaxLen : prog \in [1..n -> Alphabet]) /\ done = FALSE
 Next == done = FALSE /\ done' = TRUE /\ UNCHANGED prog
 
 NoOracle == [hash |-> <<>>, sig |-> <<>>]
